@@ -2027,6 +2027,7 @@ const (
 var cacheMark = &(RedisMessage{})
 var (
 	errClosing = &errs{error: ErrClosing}
+	errClosed  = &errs{error: ErrClosing} // stored in a mux's dead wire by Close; unlike errClosing it is never replaced by a dial error
 	errExpired = &errs{error: errConnExpired}
 )
 
